@@ -5,6 +5,8 @@ AegeanTools.angle_tools; the workload then just calls the functions with hostile
 """
 from fractions import Fraction
 
+import os
+
 import numpy as np
 
 from aegmon.common import Obs, rng_for, n_distinct_rows
@@ -22,7 +24,7 @@ ASSUMPTIONS = ['oracle: atan2(|a x b|, a.b) separation and tangent-basis positio
 MIN_REACH = {'angle_tools:gcd': 1, 'angle_tools:bear': 1, 'angle_tools:translate': 1,
              'angle_tools:dec2dms': 1, 'angle_tools:dec2hms': 1, 'angle_tools:dec2dec': 1}
 MIN_COUNTERS = {'contract_gcd': 10, 'contract_bear': 10, 'contract_translate': 10, 'contract_dms': 10,
-                'contract_hms': 10, 'parse_padded': 1000, 'contract_bear_from_exact_pole': 50, 'translate_destination_is_a_pole': 1000}
+                'contract_hms': 10, 'parse_padded': 1000, 'contract_bear_from_exact_pole': 50, 'translate_destination_is_a_pole': 1000, 'int_variants_checked': 4, 'catalogue_string_rows': 10}
 
 TOL = 1e-9          # degrees, from the statement
 _OBS = None         # the Obs the installed contracts record into
@@ -212,6 +214,11 @@ def cases(seed, tier):
     for k in range(reps * 2):
         out.append({'kind': 'sexa_random', 'n': 4000 if tier == 'quick' else 40000, 'seed': [seed, 'sexa', k]})
     out.append({'kind': 'int_spellings', 'n': 2000 if tier == 'quick' else 20000, 'seed': [seed, 'ints']})
+    # the formatters where their output is used: the coordinate strings of catalogue rows made by priorized fitting from an
+    # input catalogue whose own strings are absent or stale (every row's strings must be the formatted ra/dec of THAT row)
+    for k in range(3 if tier == 'quick' else 24):
+        out.append({'kind': 'catalogue_strings', 'stage': 1 + k % 3, 'strings': ['empty', 'stale', 'as_found'][(k // 3) % 3] if k >= 3 else ['empty', 'stale', 'empty'][k],
+                    'seed': [seed, 'catstr', k]})
     return out
 
 
@@ -354,6 +361,43 @@ def run(case):
                     o.violate('int_spelling_differs_from_float', {'spelling': name, 'args': [int(ra1[i]), int(d1[i]), int(ra2[i]), int(d2[i]), int(r[i]), int(t[i])],
                                                                   'int': [float(gi[i]), float(bi[i]), float(ti[0][i]), float(ti[1][i])],
                                                                   'float': [float(gf[i]), float(bf[i]), float(tf[0][i]), float(tf[1][i])]})
+            # arrays whose FIRST element is special (same meridian, the same point twice), mixed int/float arguments, lists of
+            # Python ints and the all-pairs matrix of a short list by broadcasting: the first element must not decide the
+            # type of the answer
+            m = 40
+            for variant in ('first_on_meridian', 'first_identical', 'first_antipodal', 'all_pairs_matrix', 'int_dec_float_ra', 'lists_of_ints'):
+                A1, B1, A2, B2 = ra1[:m].copy(), d1[:m].copy(), ra2[:m].copy(), d2[:m].copy()
+                if variant == 'first_on_meridian':
+                    A2[0] = A1[0]
+                elif variant == 'first_identical':
+                    A2[0], B2[0] = A1[0], B1[0]
+                elif variant == 'first_antipodal':
+                    A1[0], B1[0], A2[0], B2[0] = 10, 20, 190, -20
+                args_f = [v.astype(float) for v in (A1, B1, A2, B2)]
+                args_i = [v.astype(np.int64) for v in (A1, B1, A2, B2)]
+                if variant == 'all_pairs_matrix':
+                    args_f = [args_f[0][:, None], args_f[1][:, None], args_f[0][None, :], args_f[1][None, :]]
+                    args_i = [args_i[0][:, None], args_i[1][:, None], args_i[0][None, :], args_i[1][None, :]]
+                elif variant == 'int_dec_float_ra':
+                    args_i = [args_f[0], args_i[1], args_f[2], args_i[3]]
+                elif variant == 'lists_of_ints':
+                    args_i = [[int(x) for x in v] for v in (A1, B1, A2, B2)]
+                try:
+                    gfv = np.asarray(at.gcd(*args_f), dtype=float)
+                    giv = np.asarray(at.gcd(*args_i), dtype=float)
+                except Exception as e:
+                    if variant == 'lists_of_ints':
+                        o.count('int_variant_not_accepted_by_subject')       # plain lists are not arrays: recorded, not judged
+                        continue
+                    o.violate('int_spelling_raises', {'variant': variant, 'exc': repr(e)})
+                    continue
+                o.count('int_variants_checked')
+                if giv.shape != gfv.shape or not np.all(np.abs(giv - gfv) <= 1e-12):
+                    k_ = int(np.argmax(np.abs(giv - gfv))) if giv.shape == gfv.shape else 0
+                    o.violate('int_spelling_differs_from_float', {'spelling': 'int64, ' + variant, 'shape_int': list(giv.shape),
+                                                                  'shape_float': list(gfv.shape),
+                                                                  'worst_int': float(giv.ravel()[k_]) if giv.size else None,
+                                                                  'worst_float': float(gfv.ravel()[k_]) if gfv.size else None})
             for i in rng.integers(0, n, 300):
                 a = (int(ra1[i]), int(d1[i]), int(ra2[i]), int(d2[i]))
                 gs, bs = at.gcd(*a), at.bear(*a)
@@ -372,6 +416,8 @@ def run(case):
             o.n_eval += 3 * n + 900
             o.n_nontrivial += n_distinct_rows(ra1, d1, ra2, d2)
             o.sample = {'n': n, 'first': [int(ra1[0]), int(d1[0]), int(ra2[0]), int(d2[0])], 'gcd': float(gf[0])}
+        elif kind == 'catalogue_strings':
+            _catalogue_strings(o, case)
         elif kind == 'sexa_carries':
             xs = _carry_values(case['which'])
             _drive_sexa(at, o, xs, case['which'])
@@ -427,6 +473,57 @@ def _carry_values(which):
             xs += [v, -v, 360.0 - v]
         xs = [x for x in xs if -360 <= x < 360]
     return [float(x) for x in xs]
+
+
+def _catalogue_strings(o, case):
+    import shutil
+    from fractions import Fraction
+    from astropy.io import fits
+    from aegmon.common import scratch_dir
+    from aegmon.gen import fields
+    from aegmon.props import c03
+    from aegmon.refs import sexa
+    rng = rng_for(*case['seed'])
+    spec = fields.gen_field(rng, n_sources=int(rng.integers(6, 12)), shape=(120, 130), tiny=0, nan_blocks=0, edge=0,
+                            snr_range=(30, 200), faint=0.0)
+    h, z, truth, img = fields.build(spec)
+    rms = float(spec['noise'] or 1.0)
+    sc = scratch_dir()
+    try:
+        fn = os.path.join(sc, 'field.fits')
+        fits.PrimaryHDU(img, header=h).writeto(fn, overwrite=True)
+        cfg = {'docov': False, 'max_summits': None, 'island': False}
+        from AegeanTools.models import ComponentSource
+        cat = [s_ for s_ in c03._blind(fn, cfg, rms) if isinstance(s_, ComponentSource)]
+        for s_ in cat:
+            if case['strings'] == 'empty':
+                s_.ra_str = s_.dec_str = ''
+            elif case['strings'] == 'stale':
+                # positions corrected by hand (2 arcsec) after the strings were made
+                s_.dec = float(s_.dec) + 2.0 / 3600.0
+                s_.ra = (float(s_.ra) + 2.0 / 3600.0) % 360.0
+        outs = c03._prior(fn, {'docov': False, 'stage': case['stage'], 'regroup': True}, rms, cat)
+        o.n_eval += 1
+        for r in outs:
+            if not isinstance(r, ComponentSource) or not (np.isfinite(r.ra) and np.isfinite(r.dec)):
+                continue
+            o.count('catalogue_string_rows')
+            o.n_nontrivial += 1
+            ok1, p1, v1 = sexa.parse_hms(r.ra_str) if isinstance(r.ra_str, str) else (False, ['not a string'], None)
+            ok2, p2, v2 = sexa.parse_dms(r.dec_str) if isinstance(r.dec_str, str) else (False, ['not a string'], None)
+            w = {'stage': case['stage'], 'input_strings': case['strings'], 'ra': float(r.ra), 'dec': float(r.dec),
+                 'ra_str': r.ra_str, 'dec_str': r.dec_str}
+            if not ok1 or not ok2:
+                o.violate('catalogue_string_fields', dict(w, problems=(p1 or []) + (p2 or [])))
+                continue
+            d1 = (v1 - Fraction(float(r.ra)) * 240) % 86400
+            d1 = min(d1, 86400 - d1)
+            d2 = abs(v2 - Fraction(float(r.dec)) * 3600)
+            if d1 > Fraction(5, 1000) + Fraction(1, 10 ** 7) or d2 > Fraction(5, 1000) + Fraction(1, 10 ** 7):
+                o.violate('catalogue_string_is_not_the_rows_coordinate', dict(w, ra_err_s=float(d1), dec_err_arcsec=float(d2)))
+        o.sample = {'stage': case['stage'], 'input_strings': case['strings'], 'rows': len(outs)}
+    finally:
+        shutil.rmtree(sc, ignore_errors=True)
 
 
 def _padded(o, parse, s, bare, which):
